@@ -386,10 +386,57 @@ function genC13(index) {
     }
   }
   ops.push({ op: "digest" });
+  // a sibling sequence that differs in one small, meaningful way must give another digest
+  const perturb = n > 0 ? { kind: rng.below(8), at: rng.below(n), salt: rng.below(26) } : null;
   // fault operations after the digest
   const faults = rng.range(0, 2);
   for (let i = 0; i < faults; i++) ops.push(rng.chance(1, 2) ? { op: "digest" } : { op: "string", v: "late" });
-  return { ops };
+  return { ops, perturb };
+}
+// the perturbed sibling of a write sequence (null when the perturbation does not apply)
+function sibling(ops, p) {
+  if (!p) return null;
+  const w = ops.slice(0, ops.findIndex((o) => o.op === "digest"));
+  if (!w.length) return null;
+  const i = p.at % w.length;
+  const o = w[i];
+  const out = w.map((x) => ({ ...x }));
+  const ch = String.fromCharCode(97 + p.salt);
+  switch (p.kind) {
+    case 0: // change (or add) one character of a string / tag
+      if (o.op !== "string" && o.op !== "tag") return null;
+      out[i].v = o.v.length ? (o.v[0] === ch ? "#" : ch) + o.v.slice(1) : ch;
+      if (Buffer.from(out[i].v).equals(Buffer.from(o.v))) return null;
+      break;
+    case 1:
+      if (o.op !== "boolean") return null;
+      out[i].v = !o.v;
+      break;
+    case 2:
+      if (o.op !== "number") return null;
+      out[i].v = o.v === 7 ? 8 : 7;
+      break;
+    case 3:
+      if (o.op !== "null") return null;
+      out[i] = { op: "boolean", v: false };
+      break;
+    case 4:
+      if (o.op === "string") out[i].op = "tag";
+      else if (o.op === "tag") out[i].op = "string";
+      else return null;
+      break;
+    case 5: // one write split in two
+      if ((o.op !== "string" && o.op !== "tag") || o.v.length < 2 || /[\ud800-\udfff]/.test(o.v)) return null;
+      out.splice(i, 1, { op: o.op, v: o.v.slice(0, 1) }, { op: o.op, v: o.v.slice(1) });
+      break;
+    case 6: // one write dropped
+      out.splice(i, 1);
+      break;
+    default: // two adjacent, different writes swapped
+      if (i + 1 >= w.length || canon(w[i]) === canon(w[i + 1])) return null;
+      [out[i], out[i + 1]] = [out[i + 1], out[i]];
+  }
+  return out;
 }
 function numOf(v) {
   if (v === "NaN") return NaN;
@@ -441,6 +488,26 @@ function execC13(H, run) {
     if (digest !== want) viol("digest-is-not-sha256-of-the-written-bytes", { got: digest, want, bytes: stream.length, mod64: stream.length % 64 });
     out.crossedBlock = stream.length >= 64;
     out.extraPadBlock = stream.length % 64 >= 56;
+  }
+  // distinct write sequences must give distinct digests (the encoding is injective on writes):
+  // catches writes that are silently not hashed and framing that lets two sequences collide
+  const sib = digest !== null ? sibling(run.ops, run.perturb) : null;
+  if (sib) {
+    const w2 = new H.Hash256Writer();
+    try {
+      for (const op of sib) {
+        if (op.op === "tag") w2.updateTag(op.v);
+        else if (op.op === "string") w2.updateString(op.v);
+        else if (op.op === "number") w2.updateNumber(numOf(op.v));
+        else if (op.op === "boolean") w2.updateBoolean(op.v);
+        else if (op.op === "null") w2.updateNull();
+      }
+      const d2 = w2.digestHex();
+      out.siblings = 1;
+      if (d2 === digest) viol("distinct-write-sequences-same-digest", { perturbation: run.perturb, sibling: sib.slice(0, 6), digest });
+    } catch (e) {
+      viol("write-or-digest-threw-before-digest", { sibling: true, msg: String(e && e.message) });
+    }
   }
   out.cls = `${stream.length % 64}/${Math.min(out.writes, 41)}`;
   out.nontrivial = stream.length > 0;
@@ -687,6 +754,7 @@ async function main() {
       agg.exports += r.exports || 0;
       agg.writes += r.writes || 0;
       agg.bytes += r.bytes || 0;
+      agg.siblings = (agg.siblings || 0) + (r.siblings || 0);
       agg.refs += r.refs || 0;
       agg.defs += r.defs || 0;
       if (r.overrides) agg.overrides++;
@@ -819,6 +887,7 @@ async function main() {
             bytes_hashed: agg.bytes,
             sequences_crossing_a_block_boundary: agg.crossed,
             sequences_needing_the_extra_padding_block: agg.extraPad,
+            sibling_sequences_compared_for_injectivity: agg.siblings || 0,
             run_over_2_pow_29_bytes: big ? { ok: big.ok, bytes: big.bytes } : "thorough tier only",
             faults_fired: { operations_after_digest: "see samples; every run ends with 0-2 of them" },
             components: { real: ["packages/beff-client/src/hash.ts type-stripped from the working tree"], stub: ["type stripper (swc based)"], oracle: "node:crypto createHash('sha256')" },
